@@ -192,7 +192,11 @@ impl Property for C17 {
                 let mut t = String::from(if rng.coin() { "module m;\n" } else { "module m(zz_p);\n" });
                 let nonansi = t.contains("zz_p");
                 for i in 0..1 + rng.below(3) {
-                    t.push_str(&gen::pragma_lines(&mut rng));
+                    if rng.chance(1, 3) {
+                        t.push_str(&gen::pragma_continuation(&mut rng));
+                    } else {
+                        t.push_str(&gen::pragma_lines(&mut rng));
+                    }
                     t.push_str(&format!("  logic b{};\n", i));
                 }
                 if nonansi {
